@@ -984,7 +984,7 @@ impl<'a> ActiveFileSet<'a> {
                 continue;
             };
 
-            if file_name.starts_with(&file_prefix) && file_name.ends_with(&file_ext) {
+            if is_file_in_set(file_name, file_prefix, file_ext) {
                 file_set.push(file_name.to_owned());
             }
         }
@@ -1231,6 +1231,22 @@ fn read_file_path_ts(path: &Path) -> Result<&str, io::Error> {
         .ok_or_else(|| io::Error::new(io::ErrorKind::Other, "file names must be valid UTF8"))?;
 
     read_file_name_ts(file_name)
+}
+
+fn is_file_in_set(file_name: &str, file_prefix: &str, file_ext: &str) -> bool {
+    // Files in the set are named `{prefix}.{ts}.{counter}.{id}.{ext}`.
+    // Other files that only share the prefix or extension, like `{prefix}-notes.{ext}`
+    // or the files of a set called `{prefix}2`, aren't part of this one
+    let Some(parts) = file_name
+        .strip_prefix(file_prefix)
+        .and_then(|rest| rest.strip_suffix(file_ext))
+        .and_then(|rest| rest.strip_prefix('.'))
+        .and_then(|rest| rest.strip_suffix('.'))
+    else {
+        return false;
+    };
+
+    parts.split('.').count() == 3
 }
 
 fn file_name(file_prefix: &str, file_ext: &str, ts: &str, id: &str) -> String {
